@@ -49,6 +49,11 @@ use libp2p_swarm::{
 use prometheus_client::registry::Registry;
 use prost::Message as _;
 use rand::seq::{IteratorRandom, SliceRandom};
+#[cfg(libp2p_verif)]
+use libp2p_core::verif_clock::Instant;
+#[cfg(libp2p_verif)]
+use web_time::SystemTime;
+#[cfg(not(libp2p_verif))]
 use web_time::{Instant, SystemTime};
 
 #[cfg(feature = "metrics")]
